@@ -8,20 +8,18 @@ pub mod m0_perm1 {
    use crate::common::*;
    ascent! {
       pub struct Prog;
-      relation r5(i64, i64);
       relation r4(i64, i64, i64);
-      relation r0(i64);
       relation r3(i64, i64, i64);
       relation r1(i64, i64);
       relation r2(i64, i64, i64);
-      r0(v0) <-- if let Some(v0) = Some(0), r1(v0, (v0 + 0));
-      r3(v0, (v0 + 1), v0) <-- let v0 = 2, if (v0 < 6), r1(v1, v0) if ((*v1) < 1);
-      r2(v0, v2, v3) <-- r1(v0, v1), r1(v1, v2), r5(v2, v3);
+      relation r5(i64, i64);
+      relation r0(i64);
+      r5((v0 + 1), v0) <-- for v0 in [3, 4], if (v0 < 6);
       r2(v1, v0, v1) <-- if let Some(v0) = Some(4), r1(v1, v2);
-      r3((v0 + 1), v0, v0) <-- if let Some(v0) = Some(4), if (v0 < 6);
-      r3(v2, v1, v1) <-- r4(v0, v1, v2), r5(v3, v4), r4(v5, v4, 1);
       r4(v0, v1, (v0 + 1)) <-- if let Some(v0) = None::<i64>, r3(v1, v0, v0), if (v0 < 6), r2(v0, (v0 + 0), v0);
-      r3(v0, v2, v3) <-- r1(v0, v1), r5(v1, v2), r1(v2, v3);
+      r3(v0, v1, v2) <-- r5(v0, v1) if ((*v0) < 4), r1(v1, v2) if ((*v2) != (*v1));
+      r3(v0, (v0 + 1), v0) <-- let v0 = 2, if (v0 < 6), r1(v1, v0) if ((*v1) < 1);
+      r2(v0, v8, v9) <-- if let Some(v9) = Some(2), r1(v0, v1), r5(v1, v9) let v8 = ((*v0) + 1);
    }
    pub struct Inst { p: Prog, pool: Option<ascent::rayon::ThreadPool> }
    pub fn make(pool: Option<usize>) -> Box<dyn Driver> {
@@ -67,12 +65,11 @@ pub mod m2 {
       r2(v2) <-- r0(0, v0) if ((*v0) <= 6) let v1 = ((*v0) + 0), let v2 = 1;
       r3(0, v1) <-- for v0 in 2..1, r2(v0) if (v0 < 6), r1(v1);
       r2(3) <-- r3(v0, v1);
-      r4(v0, v8) <-- if let Some(v9) = Some(2), r0(v0, v1), r3(v1, v9) let v8 = ((*v0) + 1);
-      r4(v0, v1) <-- for v9 in 0..3, r5(v0, v1), r5(v9, v1);
-      r4(v0, v0) <-- r1(0), r3(1, v0), r1(v1) if ((*v0) != 3);
+      r4(v0, v1) <-- r0(v0, v1), r3(v0, v0), r0(v1, v2);
+      r2(v0) <-- r5(v0, v1), r5(v0, v0), r5(v1, v2);
+      r4(v2, v1) <-- if let Some(v0) = Some(0), r2(v1) if ((*v1) < 5), r1(v2) if ((*v2) != 3);
       r3(v0, v2) <-- r3(0, 0), r4(0, v0) if ((*v0) <= 3), r3(((*v0) + 0), v1), if let Some(v2) = Some(((*v0) + 0));
       r5(((*v0) + 1), v0) <-- r5(v0, v1), if ((*v0) < 6);
-      r5(1, v0) <-- if let Some(v0) = Some(1);
    }
    pub struct Inst { p: Prog, pool: Option<ascent::rayon::ThreadPool> }
    pub fn make(pool: Option<usize>) -> Box<dyn Driver> {
@@ -120,11 +117,10 @@ pub mod m3_ren0 {
       rel3_(x0_, 1) <-- rel2_(x0_) if ((*x0_) != 1);
       rel4_(x0_, x0_) <-- rel3_(x0_, 3), if ((*x0_) <= 1), rel2_(x0_);
       rel5_((x2_ + 1), x2_, 1) <-- rel4_(x0_, x1_) if ((*x0_) < 1) let x2_ = ((*x1_) + 0), rel3_(x2_, x0_), let x3_ = (*x1_), if (x2_ < 6);
-      rel5_(x0_, x1_, x9_) <-- for x9_ in 0..3, rel0_(x0_, x1_), rel3_(x9_, x1_);
-      rel3_(x0_, x0_) <-- rel1_(x0_) if ((*x0_) != 6), let x1_ = (*x0_), rel2_(x2_);
-      rel5_(x2_, x4_, x3_) <-- rel0_(x0_, x1_) if ((*x1_) <= 4), rel0_(x2_, x3_), if let Some(x4_) = Some((*x3_));
-      rel3_(x0_, x2_) <-- let x0_ = 3, rel5_(x0_, x1_, x0_), rel4_(((*x1_) + 1), ((*x1_) + 1)) if ((*x1_) <= 6), rel0_(((*x1_) + 1), x2_);
-      rel1_(((*x0_) + 1)) <-- rel1_(x0_) if ((*x0_) < 3), if ((*x0_) < 6);
+      rel3_(x0_, x8_) <-- if let Some(x9_) = Some(2), rel0_(x0_, x1_), rel3_(x1_, x9_) let x8_ = ((*x0_) + 1);
+      rel4_(x0_, 1) <-- rel0_(x0_, 3) if ((*x0_) != 6), let x1_ = (*x0_);
+      rel0_(3, 0);
+      rel1_(((*x0_) + 1)) <-- rel0_(1, x0_), if ((*x0_) < 6);
    }
    pub struct Inst { p: Prog, pool: Option<ascent::rayon::ThreadPool> }
    pub fn make(pool: Option<usize>) -> Box<dyn Driver> {
@@ -165,7 +161,7 @@ pub mod m5_perm0 {
       relation r1(i64, i64);
       relation r0(i64, i64);
       r2(v1, v1) <-- r0(v0, v1), r2(v0, v2);
-      r2(v0, v1) <-- r2(1, v2), r2(v0, v1), if ((*v0) != 2);
+      r2(v0, v1) <-- r2(v0, v1), if ((*v1) != 2), r2(v1, v1);
    }
    pub struct Inst { p: Prog, pool: Option<ascent::rayon::ThreadPool> }
    pub fn make(pool: Option<usize>) -> Box<dyn Driver> {
@@ -202,12 +198,12 @@ pub mod m6_perm1 {
       relation r1(i64, i64);
       relation r2(i64, i64);
       relation r0(i64, i64);
-      r1(1, 0);
-      r2(v0, v1) <-- r2(v0, v1), r2(v1, v2);
-      r2(v0, v0) <-- r2(3, v0), r2(v0, v1);
-      r2(v0, v1) <-- r0(v0, v1), if ((*v0) == 3);
-      r2(v0, v1) <-- r2(1, v2), r2(v0, v1);
       r2(1, v0) <-- r1(v0, v1);
+      r2(v0, v1) <-- r0(v0, v1), if ((*v0) == 3);
+      r2(v0, v0) <-- r2(3, v0), r2(v0, v1);
+      r2(v0, v2) <-- r1(v0, v1), r2(v1, v2), r1(v2, v3);
+      r1(1, 0);
+      r2(v0, v1) <-- r2(v0, v1), r2(v1, v1);
    }
    pub struct Inst { p: Prog, pool: Option<ascent::rayon::ThreadPool> }
    pub fn make(pool: Option<usize>) -> Box<dyn Driver> {
@@ -248,8 +244,8 @@ pub mod m7_ren0 {
       rel1_(x0_, x0_) <-- rel0_(x0_, x1_), if ((*x0_) != 3);
       rel2_(x1_, x1_) <-- rel0_(x0_, x1_);
       rel3_(2) <-- rel1_(0, x0_), rel2_(x1_, x2_), if ((*x0_) != 2);
-      rel1_(x0_, x0_) <-- rel0_(x0_, x1_), rel2_(x1_, x9_), if ((*x9_) == 1);
-      rel1_(x0_, x1_) <-- rel0_(x0_, x1_), rel1_(x9_, x1_);
+      rel1_(x0_, x1_) <-- rel0_(x0_, x1_), rel2_(x0_, x0_), rel0_(x1_, x2_), if ((*x2_) == 1);
+      rel1_(x0_, x2_) <-- rel0_(x0_, x1_), rel1_(x1_, x2_), rel0_(x2_, x3_);
       rel3_(x1_) <-- rel0_(x0_, x1_), if ((*x0_) == 0);
       rel1_(1, 2);
       rel1_(1, 3);
@@ -292,13 +288,10 @@ pub mod m8_ren1 {
       relation node(i64, i64, i64);
       relation foo(i64, i64);
       relation bar(i64);
-      path(a, a) <-- edge(a), if ((*a) != 3);
+      path(a, a) <-- edge(a), if ((*a) != 0);
       path(b, a) <-- path(a, b), edge(a);
-      node(a, b, c) <-- foo(a, b), path(1, c);
-      path(a, a) <-- path(a, 0), if ((*a) != 0);
-      path(0, a) <-- node(a, b, c), bar(d);
-      path(0, 1) <-- edge(3);
-      bar(a) <-- bar(a), node(1, a, a), bar(a);
+      bar(a) <-- foo(a, b), path(b, c), if ((*c) == 0);
+      foo(b, a) <-- node(0, a, b), if ((*b) == 2);
    }
    pub struct Inst { p: Prog, pool: Option<ascent::rayon::ThreadPool> }
    pub fn make(pool: Option<usize>) -> Box<dyn Driver> {
@@ -338,7 +331,7 @@ pub mod m9_i32 {
       relation r1(i32, i32);
       relation r2(i32, i32, i32);
       r2(v0, v0, v0) <-- r1(v0, 100021), if ((*v0) == 100007);
-      r2(v0, v1, v9) <-- r1(v0, v1), r1(v1, v9);
+      r2(v0, v1, v0) <-- r1(v0, v1), r1(v1, v1);
       r1(v1, v2) <-- r2(v0, 100021, v1), r1(100007, v2), if ((*v0) != 100021);
       r1(100021, 100014);
       r2(v2, v1, v5) <-- r1(v0, v1), r2(v2, v1, v3), r2(v4, v1, v5), if ((*v0) != 100014);
@@ -367,6 +360,90 @@ pub mod m9_i32 {
    }
 }
 
+#[allow(unused, non_snake_case, clippy::all)]
+pub mod m11_perm0 {
+   use ascent::*;
+   use ascent::aggregators::*;
+   use ascent::lattice::{Dual, set::Set};
+   use crate::common::*;
+   ascent! {
+      pub struct Prog;
+      relation r0(i64, i64);
+      relation r2(i64, i64);
+      relation r1(i64, i64);
+      r2(v0, v1) <-- r2(v0, v1), r0(v0, v0), r2(v1, v2);
+      r2(1, v0) <-- if let Some(v0) = Some(3), r1(v0, v1), r0(v0, v0), for v2 in 0..4;
+   }
+   pub struct Inst { p: Prog, pool: Option<ascent::rayon::ThreadPool> }
+   pub fn make(pool: Option<usize>) -> Box<dyn Driver> {
+      let pool = pool.map(|n| ascent::rayon::ThreadPoolBuilder::new().num_threads(n).build().unwrap());
+      let p = match &pool { Some(pl) => pl.install(|| Default::default()), None => Default::default() };
+      Box::new(Inst { p, pool })
+   }
+   impl Driver for Inst {
+      fn load(&mut self, rel: usize, rows: &[Sexp], append: bool) -> Option<()> {
+         match rel {
+         0 => { let v: Vec<(i64,i64,)> = parse_rows(rows)?; if append { self.p.r0.extend(v) } else { self.p.r0 = v } },
+         1 => { let v: Vec<(i64,i64,)> = parse_rows(rows)?; if append { self.p.r1.extend(v) } else { self.p.r1 = v } },
+         2 => { let v: Vec<(i64,i64,)> = parse_rows(rows)?; if append { self.p.r2.extend(v) } else { self.p.r2 = v } },
+            _ => return None,
+         }
+         Some(())
+      }
+      fn run(&mut self) { match &self.pool { Some(pl) => { let p = &mut self.p; pl.install(|| p.run()) }, None => self.p.run() } }
+      fn run_here(&mut self) { self.p.run() }
+      fn run_timeout(&mut self, k: usize) -> Option<bool> { let _ = k; None }
+      fn dump(&self) -> String { vec![dump_rel(0, self.p.r0.iter().map(Row::render).collect()), dump_rel(1, self.p.r1.iter().map(Row::render).collect()), dump_rel(2, self.p.r2.iter().map(Row::render).collect())].join(" | ") }
+      fn iters(&self) -> String { format!("iters {}", self.p.scc_iters.iter().map(|x| x.to_string()).collect::<Vec<_>>().join(" ")) }
+   }
+}
+
+#[allow(unused, non_snake_case, clippy::all)]
+pub mod m12_ren1 {
+   use ascent::*;
+   use ascent::aggregators::*;
+   use ascent::lattice::{Dual, set::Set};
+   use crate::common::*;
+   ascent! {
+      pub struct Prog;
+      relation edge(i64, i64, i64);
+      relation path(i64, i64, i64);
+      relation node(i64);
+      relation foo(i64);
+      relation bar(i64, i64, i64);
+      relation baz(i64, i64);
+      foo(c) <-- path(a, b, c) if ((*a) != 5) let d = ((*c) + 0);
+      foo(((*a) + 1)) <-- foo(1), edge(a, b, c), if ((*a) < 6);
+      bar(a, b, c) <-- baz(a, b), baz(a, a), baz(b, c);
+      baz(((*a) + 1), a) <-- bar(1, 2, a) if ((*a) < 2), if ((*a) < 6);
+   }
+   pub struct Inst { p: Prog, pool: Option<ascent::rayon::ThreadPool> }
+   pub fn make(pool: Option<usize>) -> Box<dyn Driver> {
+      let pool = pool.map(|n| ascent::rayon::ThreadPoolBuilder::new().num_threads(n).build().unwrap());
+      let p = match &pool { Some(pl) => pl.install(|| Default::default()), None => Default::default() };
+      Box::new(Inst { p, pool })
+   }
+   impl Driver for Inst {
+      fn load(&mut self, rel: usize, rows: &[Sexp], append: bool) -> Option<()> {
+         match rel {
+         0 => { let v: Vec<(i64,i64,i64,)> = parse_rows(rows)?; if append { self.p.edge.extend(v) } else { self.p.edge = v } },
+         1 => { let v: Vec<(i64,i64,i64,)> = parse_rows(rows)?; if append { self.p.path.extend(v) } else { self.p.path = v } },
+         2 => { let v: Vec<(i64,)> = parse_rows(rows)?; if append { self.p.node.extend(v) } else { self.p.node = v } },
+         3 => { let v: Vec<(i64,)> = parse_rows(rows)?; if append { self.p.foo.extend(v) } else { self.p.foo = v } },
+         4 => { let v: Vec<(i64,i64,i64,)> = parse_rows(rows)?; if append { self.p.bar.extend(v) } else { self.p.bar = v } },
+         5 => { let v: Vec<(i64,i64,)> = parse_rows(rows)?; if append { self.p.baz.extend(v) } else { self.p.baz = v } },
+            _ => return None,
+         }
+         Some(())
+      }
+      fn run(&mut self) { match &self.pool { Some(pl) => { let p = &mut self.p; pl.install(|| p.run()) }, None => self.p.run() } }
+      fn run_here(&mut self) { self.p.run() }
+      fn run_timeout(&mut self, k: usize) -> Option<bool> { let _ = k; None }
+      fn dump(&self) -> String { vec![dump_rel(0, self.p.edge.iter().map(Row::render).collect()), dump_rel(1, self.p.path.iter().map(Row::render).collect()), dump_rel(2, self.p.node.iter().map(Row::render).collect()), dump_rel(3, self.p.foo.iter().map(Row::render).collect()), dump_rel(4, self.p.bar.iter().map(Row::render).collect()), dump_rel(5, self.p.baz.iter().map(Row::render).collect())].join(" | ") }
+      fn iters(&self) -> String { format!("iters {}", self.p.scc_iters.iter().map(|x| x.to_string()).collect::<Vec<_>>().join(" ")) }
+   }
+}
+
 fn main() {
-   common::main_loop(&[("m0_perm1", m0_perm1::make as common::Factory), ("m2", m2::make as common::Factory), ("m3_ren0", m3_ren0::make as common::Factory), ("m5_perm0", m5_perm0::make as common::Factory), ("m6_perm1", m6_perm1::make as common::Factory), ("m7_ren0", m7_ren0::make as common::Factory), ("m8_ren1", m8_ren1::make as common::Factory), ("m9_i32", m9_i32::make as common::Factory)]);
+   common::main_loop(&[("m0_perm1", m0_perm1::make as common::Factory), ("m2", m2::make as common::Factory), ("m3_ren0", m3_ren0::make as common::Factory), ("m5_perm0", m5_perm0::make as common::Factory), ("m6_perm1", m6_perm1::make as common::Factory), ("m7_ren0", m7_ren0::make as common::Factory), ("m8_ren1", m8_ren1::make as common::Factory), ("m9_i32", m9_i32::make as common::Factory), ("m11_perm0", m11_perm0::make as common::Factory), ("m12_ren1", m12_ren1::make as common::Factory)]);
 }
